@@ -475,7 +475,9 @@ Definition f_define (l : lambda) (e rest : cell) : M lambda :=
          if negb (Compile.is_nil r2) then fail E_OTHER else
          dom v <- lift (car_e r1);
          dom l1 <- ce l false v; ret (l1, target)
-     | CPair name _ => dom l1 <- f_lambda l e true; ret (l1, name)
+     | CPair name _ =>
+         if negb (Compile.is_symbol name) then fail E_OTHER else
+         dom l1 <- f_lambda l e true; ret (l1, name)
      | _ => fail E_OTHER
      end);
   if is_primitive_symbol symbol then fail E_OTHER else f_store l1 symbol.
@@ -723,7 +725,8 @@ Proof.
   eapply pres_bind; [apply pres_lift|intros target _].
   eapply pres_bind with (Q := fun p => ext l (fst p)).
   - destruct target; try apply pres_fail.
-    + eapply pres_bind; [apply f_lambda_ok|intros l1 H1]. apply pres_ret. exact H1.
+    + destruct (negb (Compile.is_symbol target1)); [apply pres_fail|].
+      eapply pres_bind; [apply f_lambda_ok|intros l1 H1]. apply pres_ret. exact H1.
     + eapply pres_bind; [apply pres_lift|intros r2 _].
       destruct (negb (Compile.is_nil r2)); [apply pres_fail|].
       eapply pres_bind; [apply pres_lift|intros v _].
